@@ -50,7 +50,7 @@ def plugin(name):
 
 
 def bounds(tier, seed):
-    return dict(schemes=SCHEMES, fields=FIELDS, metrics=len(METRICS), disp=[0.05, 0.3, 0.9], dts=[60, 600, 3600] if tier == "thorough" else [600],
+    return dict(schemes=SCHEMES, fields=FIELDS, metrics=len(METRICS), disp=[0.05, 0.3, 0.9], dts=[60, 600, 3600, 90000] if tier == "thorough" else [600, 90000],
                 steps=[1, 2, 3, 8] if tier == "thorough" else [1, 3], convergence_n=[8, 16, 32])
 
 
